@@ -173,6 +173,13 @@ func (x *XmlNode) Find(start int, m meta.Definition) int {
 func (x *XmlNode) Choose(sel *node.Selection, choice *meta.Choice) (*meta.ChoiceCase, error) {
 	for _, c := range choice.Cases() {
 		for _, m := range c.DataDefinitions() {
+			if nested, isChoice := m.(*meta.Choice); isChoice {
+				// data of a choice inside this case selects this case too
+				if chosen, _ := x.Choose(sel, nested); chosen != nil {
+					return c, nil
+				}
+				continue
+			}
 			if x.Find(0, m) >= 0 {
 				return c, nil
 			}
